@@ -117,6 +117,7 @@ type c11Model struct {
 }
 
 func runC11(c *vh.Case, spec c11Spec) {
+	mcp.VerifRecordTimers(true)
 	log := c.Log
 	ctx := context.Background()
 	T := ms(spec.TimeoutMs)
@@ -502,9 +503,53 @@ func runC11(c *vh.Case, spec c11Spec) {
 		}
 		mmu.Unlock()
 	}
-	// let background POSTs finish, then everything idles out
+	// let background POSTs finish
 	bg.Wait()
 	lateWG.Wait()
+	if c.Index%2 == 1 && !spec.Stateless && !c.Violated() {
+		// Every second case ends by closing whatever is still alive and then asks the timer registry
+		// (verif hook in mcp): a session that has been torn down may not own an armed idle timer.
+		synctestWait()
+		// each live session gets a POST that completes at the very instant the session is closed, so that
+		// the end of the POST and the teardown race in either order
+		var twg sync.WaitGroup
+		mmu.Lock()
+		for _, mm := range models {
+			if mm.alive {
+				mm := mm
+				nonce++
+				body := fmt.Sprintf(`{"jsonrpc":"2.0","id":%d,"method":"tools/call","params":{"name":"sleep","arguments":{"ms":3,"nonce":%d}}}`, 5000+nonce, 100000+nonce)
+				twg.Add(1)
+				go func() {
+					defer twg.Done()
+					ip.Do(ctx, "POST", "http://example.test/mcp", hdrFor(mm.owner, mm.id), []byte(body))
+				}()
+			}
+		}
+		mmu.Unlock()
+		time.Sleep(3 * time.Millisecond)
+		for _, ss := range serverSessions() {
+			ss := ss
+			twg.Add(1)
+			go func() {
+				defer twg.Done()
+				ss.Close()
+			}()
+		}
+		twg.Wait()
+		synctestWait()
+		recorded, armed := mcp.VerifStopArmedTimers(sh)
+		c.Count("idle_timers_recorded", recorded)
+		if armed > 0 {
+			bad("timer-left-behind", "all sessions are closed and forgotten, yet %d of the %d idle timers created by the handler are still armed", armed, recorded)
+		}
+		mmu.Lock()
+		for _, mm := range models {
+			mm.alive = false
+		}
+		mmu.Unlock()
+	}
+	// then everything idles out
 	time.Sleep(4*T + time.Second)
 	synctestWait()
 	if n := len(serverSessions()); n != 0 && !c.Violated() {
@@ -520,6 +565,7 @@ func runC11(c *vh.Case, spec c11Spec) {
 		}
 	}
 	ip.Wait()
+	mcp.VerifStopArmedTimers(sh) // forget this handler's timers
 	time.Sleep(11 * time.Second)
 	c.Count("ops", len(spec.Ops))
 	c.Count("requests_to_terminated_sessions", terminatedThenUsed)
